@@ -193,3 +193,71 @@ def teecsv(h):
                            z3.And(pre.len == 1, _t(row_eq(out_row(pre, 0), src_row(S, 0))), z3.BoolVal(len(hdr_writes) == (1 if wh else 0)),
                                   z3.BoolVal('textfile.flush' in names and names.index('textfile.flush') < names.index('textfile.detach')), res.out.len == 0))
         h.explore(body)
+
+
+# ------------------------------------------------------------------------------------------------ the public front ends
+FRONT = 'petl.io.csv.'
+FAMILIES = {'csv': ('excel', ['fromcsv', 'tocsv', 'appendcsv', 'teecsv']), 'tsv': ('excel-tab', ['fromtsv', 'totsv', 'appendtsv', 'teetsv'])}
+
+
+@vc('C15.csv.frontends', functions=[FRONT + f for fam in FAMILIES.values() for f in fam[1]], props=['C15', 'C16'],
+    assumptions=['csv module lossless when reader and writer are built with the SAME format arguments (T7)'])
+def frontends(h):
+    """from*/to*/append*/tee* of one family hand the implementation exactly the caller's csv arguments plus ONE shared
+    default (the dialect), so that what one side writes the other side reads with the same format; encoding, errors,
+    header / write_header go through unchanged; append opens for appending."""
+    for fam, (dialect, fns) in FAMILIES.items():
+        for user in ('none', 'delimiter', 'dialect'):
+            def body(ctx, fam=fam, dialect=dialect, fns=fns, user=user):
+                it = h.interp(ctx)
+                seen = {}
+
+                def impl(which):
+                    def summary(interp, args, kw, node):
+                        seen[which] = (list(args), dict(kw))
+                        return Opaque('impl-result', which)
+                    return summary
+                for w in ('fromcsv_impl', 'tocsv_impl', 'appendcsv_impl', 'teecsv_impl'):
+                    it.summaries[CSV + w] = impl(w)
+                srcs = []
+
+                def src_summary(kind):
+                    def s(interp, args, kw, node):
+                        o = Opaque('source', kind)
+                        srcs.append((kind, list(args), dict(kw), o))
+                        return o
+                    return s
+                it.summaries['petl.io.sources.read_source_from_arg'] = src_summary('read')
+                it.summaries['petl.io.sources.write_source_from_arg'] = src_summary('write')
+                enc, err, hdr, wh, arg = sym_cell('encoding'), sym_cell('errors'), sym_cell('header'), sym_bool('write_header'), Opaque('arg', 'arg')
+                T_ = sym_table(ctx, 'T', nmin=0)
+                delim = sym_cell('delimiter')
+                extra = {} if user == 'none' else ({'delimiter': delim} if user == 'delimiter' else {'dialect': delim})
+                want = dict(extra)
+                want.setdefault('dialect', dialect)
+                results = {}
+                for f in fns:
+                    seen.clear()
+                    del srcs[:]
+                    kw = dict(extra)
+                    if f.startswith('from'):
+                        it.call(closure_of(it, FRONT + f), [arg], dict(kw, encoding=enc, errors=err, header=hdr))
+                        a, k = seen.get('fromcsv_impl', ([], {}))
+                        base_ok = set(seen) == {'fromcsv_impl'} and not a and k.get('encoding') is enc and k.get('errors') is err and k.get('header') is hdr \
+                            and len(srcs) == 1 and srcs[0][0] == 'read' and srcs[0][1] == [arg] and k.get('source') is srcs[0][3]
+                        fmt = {x: y for x, y in k.items() if x not in ('source', 'encoding', 'errors', 'header')}
+                    else:
+                        it.call(closure_of(it, FRONT + f), [T_, arg], dict(kw, encoding=enc, errors=err, write_header=wh))
+                        w = {'to': 'tocsv_impl', 'ap': 'appendcsv_impl', 'te': 'teecsv_impl'}[f[:2]]
+                        a, k = seen.get(w, ([], {}))
+                        mode_ok = (srcs and srcs[0][2].get('mode') == 'ab') if f.startswith('append') else (srcs and srcs[0][2].get('mode', 'wb') == 'wb')
+                        base_ok = set(seen) == {w} and a == [T_] and k.get('encoding') is enc and k.get('errors') is err and k.get('write_header') is wh \
+                            and len(srcs) == 1 and srcs[0][0] == 'write' and srcs[0][1] == [arg] and k.get('source') is srcs[0][3] and bool(mode_ok)
+                        fmt = {x: y for x, y in k.items() if x not in ('source', 'encoding', 'errors', 'write_header')}
+                    results[f] = fmt
+                    ctx.oblige('%s: source, encoding, errors and header flag go to the implementation unchanged (append: opened for appending)' % f,
+                               z3.BoolVal(bool(base_ok)))
+                    same = set(fmt) == set(want) and all(fmt[x] is want[x] or fmt[x] == want[x] for x in want)
+                    ctx.oblige('%s: the csv format arguments are exactly the caller\'s plus the family default dialect=%r (an explicit dialect wins); '
+                               'nothing else is added on one side only' % (f, dialect), z3.BoolVal(bool(same)))
+            h.explore(body)
